@@ -1,6 +1,7 @@
 import TaskModel.Vars.Model
 import TaskModel.Vars.Dotenv
 import TaskModel.Vars.Cli
+import TaskModel.Vars.Compile
 import Driver.Util
 /-!
 `vars.resolve <rootDir> <dirAfter> <ntpl> part* <nbase> (name val)* { <ndefs> (name kind <nparts> part*)* }×6 <nq> name*`
@@ -154,6 +155,36 @@ def doCli : P String := do
   let st := getVariables ⟨oracle, base.reverse⟩ ⟨[], [], 3⟩ base.reverse (layersOf defs) []
   pure (" ".intercalate (qs.map (fun q => showStr (get st.env q))))
 
+/-- `vars.compile <home> <rootDir> <entrypoint> <uwd> <taskName> <rawDir> <dirTpl: nparts part*> <taskfile> <alias>
+  <nos> (name val)* <genv block> <nfiles> { <incDir> <incvars block> <vars block> }* <level>
+  <callvars block> <nwild|-1> w* <taskvars block> <fp: 0 | 1 name token> <nq> name*`
+— one call compiled from the files AS WRITTEN (`Vars.compile`, empty cache).
+Answer: the queried values, then `dir=<compiled Dir>`. -/
+def doCompile : P String := do
+  let home ← str; let root ← str; let entry ← str; let uwd ← str
+  let tname ← str; let rawDir ← str; let tpl ← parts; let tfile ← str; let alias ← str
+  let nb ← nat; let os ← many nb binding
+  let block : P (List (Name × VarDef)) := do let n ← nat; many n vdef
+  let genv ← block
+  let nf ← nat
+  let files ← many nf (do let d ← str; let iv ← block; let v ← block; pure ({ incDir := d, incVars := iv, vars := v } : FileDesc))
+  let level ← nat
+  let cv ← block
+  let wt ← tok
+  let wild ← (if wt == "-1" then pure none else match wt.toNat? with
+    | some n => do let ws ← many n str; pure (some ws)
+    | none => failure : P (Option (List Str)))
+  let tv ← block
+  let fpn ← nat
+  let fp ← (if fpn == 0 then pure none else do let n ← nat; let v ← str; pure (some (n, v)) : P (Option (Name × Str)))
+  let nq ← nat; let qs ← many nq nat
+  let tc : TaskCtx := { rootDir := root, entrypoint := entry, userWorkingDir := uwd, taskName := tname, rawDir := rawDir,
+                        dirTpl := tpl, taskfile := tfile, alias := alias }
+  let cd : CallDesc := { tc := tc, genv := genv, files := files, level := level, callVars := cv, wildcards := wild, taskVars := tv, fp := fp }
+  let w : World := ⟨oracle, os.reverse⟩
+  let r := compile w home cd []
+  pure (" ".intercalate (qs.map (fun q => showStr (get r.vars q)) ++ ["dir=" ++ showStr r.dir]))
+
 def handle (op : String) (args : List String) : Option String :=
   let run (p : P String) := match p.run args with | some (r, []) => some r | _ => none
   match op with
@@ -167,8 +198,11 @@ def handle (op : String) (args : List String) : Option String :=
   -- resolved for that call, which the `vars.resolve` lines of the same case tie to the model
   | "vars.run" => some (" ".intercalate args)
   | "vars.cli" => run doCli
+  | "vars.compile" => run doCompile
   -- monitor of "special variables are available": `vars.climon <name> <value the rule demands>`
   | "vars.climon" => match args with | [_, want] => some want | _ => none
+  -- monitor of "available unless overridden" for the POST layer: `vars.postmon <name> <value the rule demands>`
+  | "vars.postmon" => match args with | [_, want] => some want | _ => none
   | _ => none
 
 end Driver.Vars
